@@ -298,6 +298,21 @@ theorem C20_batch_elementwise (s : MockState) (ep : String) (r : Request) (rs : 
          | (s2, .raised e) => (s2, .raised e)
          | (s2, .ok resps) => (s2, .ok (resp :: resps))) := rfl
 
+theorem addIds_nonstrict (ids : List ReqId) (new : List (Option ReqId)) : addIds false ids new = .ok ids := by
+  induction new with
+  | nil => rfl
+  | cons x xs ih => cases x <;> simp [addIds, ih]
+
+/-- "batches are answered element-wise", at the level of the reply text: when every element of the batch is
+answered, the reply is exactly the array of the elements' replies, in order - whatever ids the patches were
+configured with (no identity error can come out of the mocker itself). -/
+theorem C20_batch_text_elementwise (s s' : MockState) (ep : String) (doc : Json) (b : BatchRequest) (q : List (String × Queue))
+    (resps : List Response) (hep : alGet ep s.patches = some q) (harr : doc.isArr = true)
+    (hb : BatchRequest.fromJson doc = .ok b) (hm : matchAll s ep b.requests = (s', .ok resps)) :
+    s.request ep doc = (s', .text (.arr (resps.map Response.toJson))) := by
+  simp [MockState.request, hep, harr, hb, hm, BatchResponse.construct, BatchResponse.extend, addIds_nonstrict,
+    BatchResponse.toJson]
+
 /-- Composition: serving `k` consecutive calls from one pair follows `serve` (the queue abstraction
 commutes with the state machine, so the closed form `C20_round_robin` applies to it). -/
 theorem C20_queue_steps_like_serve (q : Queue) (k : Nat) :
